@@ -38,6 +38,10 @@ def main():
     sh(f"git -C {MUTREPO} checkout -q --detach $(git -C /repo rev-parse HEAD)")
     sh(f"git -C {MUTREPO} checkout -- .")
     meta = {"property": prop, "id": sid, "ran": []}
+    fx = os.path.join(os.environ["VERIF_BUILD"], "fixtures")
+    if not os.path.exists(fx):
+        os.makedirs(os.environ["VERIF_BUILD"], exist_ok=True)
+        os.symlink(os.path.join(VERIF, "build", "fixtures"), fx)
     core._built = False
     core.build()
     r0 = sh(f"bash {demo} {core.DELTA}")
